@@ -27,6 +27,9 @@ THEOREMS = [
     "C01_source_variadic",
     "C01_source_variadic_first",
     "C01_source_stages",
+    "C01_source_slices",
+    "C01_source_rank_tests",
+    "C01_source_slices_lists",
 ]
 RULE = (
     "histories of array checks (dim string, shape, dtype/type flags) inside one jaxtyped context or "
